@@ -297,6 +297,26 @@ def _check_sample_semantics(D, i, s):
 
 
 def execute(plan, choices=None):
+    from worlds import simexec
+
+    with simexec.installed(seed=plan.get("seed", 0), choices=choices) as tx:
+        res = _execute(plan, choices)
+    return _with_threads(res, tx)
+
+
+def _with_threads(res, tx):
+    """Fold what the simulated thread pool saw into the run's result (inert unless the code under test used a pool)."""
+    res["choices"] = tx.choices.log
+    res["probes"]["thread_pool_tasks_scheduled"] = tx.stats["tasks_submitted"]
+    res["steps"] = res.get("steps", 0) + tx.stats["scheduler_steps"]
+    if tx.used:
+        res["digest"] = hashlib.blake2b((res["digest"] + repr(tx.choices.log)).encode(), digest_size=16).hexdigest()
+    if tx.failure and tx.failure["kind"] != "harness" and not res["violations"]:
+        res["violations"].append({"kind": tx.failure["kind"], "sig": tx.failure["kind"] + ":thread-pool", "detail": tx.failure["detail"]})
+    return res
+
+
+def _execute(plan, choices=None):
     scene = plan["scene"]
     root = f"/dev/shm/verif-c11-{os.getpid()}-{plan.get('seed', 0) % 100000}"
     shutil.rmtree(root, ignore_errors=True)
